@@ -12,7 +12,7 @@ NEEDS = ('threads', 'proc')
 PROC_READY = True
 QUICK = dict(runs=9000, wall=80)
 THOROUGH = dict(runs=500000, wall=1200)
-RULE = ('scenario = n<=24 unique inputs, per-element virtual service time in {0,1,2,5,20ms} (so every completion order is reachable), '
+RULE = ('scenario = n<=24 unique inputs (opaque iterator, list, tuple, range or generator), per-element virtual service time in {0,1,2,5,20ms} (so every completion order is reachable), '
         'failing subset, flags return_x/return_exceptions, optional preprocessor rejecting a subset, concurrency 1..4, capacity in '
         '{1,2,3,5,n+1}; driver = fifo_stream over a thread pool, fifo_stream whose futures are completed by a separate thread in a '
         'decision-chosen order, Stream.parmap(executor=thread), Parmapper(executor=thread|process[simulated process boundary]) '
@@ -59,7 +59,11 @@ def gen(rng, tier):
             # ... and everything else instantaneous, so that the stall starts at the very instant the rest of the pipeline goes idle:
             # the library's own timed waits then expire at the same virtual instant as the stall ends (timers tie)
             st['delays'] = [0]
-    sc = {'n': n, 'mode': mode, 'stages': [st], 'src_delays': src_delays,
+    src_kind = 'iter'
+    if not any(src_delays) and rng.random() < 0.3:
+        # "any input sequence": sized containers and plain generators take other code paths than an opaque iterator
+        src_kind = rng.choice(['list', 'tuple', 'range', 'gen'])
+    sc = {'n': n, 'mode': mode, 'stages': [st], 'src_delays': src_delays, 'src_kind': src_kind,
           'consumer_delay': rng.choice([0, 0, 0, 0.002, 0.03]) if any(st['delays']) or len(src_delays) == 1 else 0}
     cfg = swarm(rng, racy=0.15, line=0.2, max_time=200.0)
     if mode == 'parmap_process':
@@ -80,6 +84,8 @@ def shrink(sc):
         yield dict(sc, n=n, stages=[st2])
     if any(st['delays']):
         yield dict(sc, stages=[dict(st, delays=[0])])
+    if sc.get('src_kind', 'iter') != 'iter':
+        yield dict(sc, src_kind='iter')
     for key in ('return_x', 'return_exceptions', 'pre'):
         if st.get(key):
             st2 = dict(st)
@@ -118,6 +124,16 @@ def run(sim, sc):
     n = sc['n']
     mode = sc['mode']
     source = streams.Source(sim, n, sc['src_delays'])
+    kind = sc.get('src_kind', 'iter')
+    if kind != 'iter':
+        source.pulled = 0  # not observable for a plain container
+        source = {'list': list, 'tuple': tuple, 'range': lambda _: range(n), 'gen': lambda _: (i for i in range(n))}[kind](range(n))
+
+        class _P:  # keeps the 'pulled' clause below meaningful only for the instrumented iterator
+            pulled = 0
+        pulled_view = _P
+    else:
+        pulled_view = source
     fn = streams.StageFn(sim, streams.PAR_ADD, st['delays'], st.get('fail'), name='work')
     flags = dict(return_x=bool(st.get('return_x')), return_exceptions=bool(st.get('return_exceptions')))
     pre = streams.preproc_fn(st.get('pre_fail')) if st.get('pre') else None
@@ -221,7 +237,7 @@ def run(sim, sc):
                 missing = sorted(set(range(streams.idx_of(first_bad))) - rejected - set(calls))
                 if missing:
                     sim.violation('exactly-once:input-never-processed', {'missing': missing})
-    if source.pulled > n:
+    if pulled_view.pulled > n:
         sim.violation('source:pulled-more-than-exists', {})
     reordered = bool(done_order) and done_order != sorted(done_order)
     if reordered:
